@@ -209,6 +209,7 @@ type op struct {
 	peer int    // channel/mailbox peer
 	key  string // f index
 	sh   int    // shared variable
+	shKey int   // element of a function-valued shared variable (0 = the variable is a scalar, accessed whole)
 }
 
 type section struct {
@@ -255,6 +256,7 @@ type sys struct {
 	nodes   []*node
 	chans   map[[2]int]chan tla.Value
 	nShared int
+	shIdx   []bool // per shared variable: function-valued (every access is an element access sh[k])
 	mgrs    []*resources.LocalSharedManager
 	origins map[string]origin
 	fresh   int32
@@ -273,6 +275,9 @@ func (s *sys) generate() {
 	w := s.w
 	s.n = 2 + w.Choose(sim.KCfg, 3)
 	s.nShared = w.Choose(sim.KCfg, 3)
+	for v := 0; v < s.nShared; v++ {
+		s.shIdx = append(s.shIdx, w.Choose(sim.KCfg, 2) == 1)
+	}
 	s.useFile = w.Choose(sim.KCfg, 3) == 0
 	s.chans = map[[2]int]chan tla.Value{}
 	s.origins = map[string]origin{}
@@ -352,6 +357,9 @@ func (s *sys) generate() {
 							break
 						}
 						o.sh = w.Choose(sim.KOp, s.nShared)
+						if s.shIdx[o.sh] {
+							o.shKey = 1 + w.Choose(sim.KOp, 2)
+						}
 					}
 					if ok {
 						break
@@ -406,8 +414,14 @@ func (o op) describe() string {
 	case oRecvMb:
 		return "mb?"
 	case oWriteSh:
+		if o.shKey > 0 {
+			return fmt.Sprintf("sh%d[%d]:=v", o.sh, o.shKey)
+		}
 		return fmt.Sprintf("sh%d:=v", o.sh)
 	case oReadSh:
+		if o.shKey > 0 {
+			return fmt.Sprintf("rsh%d[%d]", o.sh, o.shKey)
+		}
 		return fmt.Sprintf("rsh%d", o.sh)
 	}
 	return "?"
@@ -590,6 +604,10 @@ func (s *sys) runNode(nd *node) {
 					} else {
 						name = fmt.Sprintf("A.sh%d", o.sh)
 						via = "shared variable"
+						if o.shKey > 0 {
+							idx = []tla.Value{tla.MakeNumber(int32(o.shKey))}
+							w.Probe("indexed_shared_write")
+						}
 					}
 					h, err := iface.RequireArchetypeResourceRef(name)
 					if err != nil {
@@ -618,6 +636,9 @@ func (s *sys) runNode(nd *node) {
 						idx = []tla.Value{tla.MakeNumber(int32(i))}
 					} else {
 						name = fmt.Sprintf("A.sh%d", o.sh)
+						if o.shKey > 0 {
+							idx = []tla.Value{tla.MakeNumber(int32(o.shKey))}
+						}
 					}
 					h, err := iface.RequireArchetypeResourceRef(name)
 					if err != nil {
@@ -923,7 +944,11 @@ func scenario(w *sim.World) {
 	w.Event("cfg %s", s.desc)
 	snet.Of(w).LatencyMax = []time.Duration{0, time.Millisecond}[w.Choose(sim.KCfg, 2)]
 	for v := 0; v < s.nShared; v++ {
-		s.mgrs = append(s.mgrs, resources.NewLocalSharedManager(tla.MakeNumber(0), resources.WithLocalSharedResourceTimeout(50*time.Millisecond)))
+		init := tla.MakeNumber(0)
+		if s.shIdx[v] {
+			init = tla.MakeTuple(tla.MakeNumber(0), tla.MakeNumber(0))
+		}
+		s.mgrs = append(s.mgrs, resources.NewLocalSharedManager(init, resources.WithLocalSharedResourceTimeout(50*time.Millisecond)))
 	}
 	for _, nd := range s.nodes {
 		s.runNode(nd)
